@@ -23,8 +23,11 @@ func Directed() [][]string {
 		ty         string
 		a1, a2, a3 int64
 	}
-	firsts := []tx{{"latency", 20, 0, 0}, {"slicer", 64, 0, 1000}, {"bandwidth", 10, 0, 0}, {"noop", 0, 0, 0}, {"slow_close", 100, 0, 0}}
-	seconds := []tx{{"bandwidth", 1, 0, 0}, {"slicer", 2, 0, 50000}}
+	firsts := []tx{{"latency", 20, 0, 0}, {"slicer", 64, 0, 1000}, {"slicer", 64, 0, 50000}, {"bandwidth", 10, 0, 0}, {"noop", 0, 0, 0},
+		{"slow_close", 100, 0, 0}, {"limit_data", 1015, 0, 0}}
+	// (the second stage never holds a piece for five seconds: C02's proviso; 1000 bytes take
+	// bandwidth(1 KB/s) and slicer(2 bytes / 2 ms) one second)
+	seconds := []tx{{"bandwidth", 1, 0, 0}, {"slicer", 2, 0, 2000}}
 	actions := []string{"upd1", "del1", "upd2", "del2", "add3", "reset"}
 	for _, f := range firsts {
 		for _, sc := range seconds {
@@ -47,7 +50,9 @@ func Directed() [][]string {
 				case "reset":
 					ops = append(ops, "reset")
 				}
-				ops = append(ops, fmt.Sprintf("adv %d", 200*MS), "src a 10", "srceof a", "adv 30000000000", "adv 600000000000")
+				// (long enough for a call that had to wait for a hand-over to have returned: the
+				// next chunk must not arrive at the very moment the stub is restarted)
+				ops = append(ops, fmt.Sprintf("adv %d", 2000*MS), "src a 10", "srceof a", "adv 30000000000", "adv 600000000000")
 				out = append(out, ops)
 			}
 		}
@@ -92,7 +97,29 @@ func Directed() [][]string {
 		out = append(out, []string{"add up t1 slow_close 1000 0 0 1", "newlink a up", "src a 5", fmt.Sprintf("adv %d", MS), "srceof a",
 			fmt.Sprintf("adv %d", 200*MS), a, fmt.Sprintf("adv %d", 500*MS), "adv 30000000000"})
 	}
-	// C14: independence of the per-connection decisions
+	// many toxics in one direction (more than there are toxic types), then a new connection
+	{
+		var ops []string
+		for k := 1; k <= 10; k++ {
+			ops = append(ops, fmt.Sprintf("add up m%d latency 0 0 0 1", k))
+		}
+		ops = append(ops, "newlink a up", "src a 10", "adv 1000000", "srceof a", "adv 30000000000")
+		out = append(out, ops)
+	}
+	// limit_data in front of latency: the cut piece is still delayed
+	out = append(out, []string{"add up t1 limit_data 60 0 0 1", "add up t2 latency 400 0 0 1", "newlink a up", "src a 100",
+		fmt.Sprintf("adv %d", 100*MS), fmt.Sprintf("adv %d", 1000*MS), "adv 30000000000"})
+	out = append(out, []string{"add up t1 limit_data 150 0 0 1", "add up t2 latency 400 0 0 1", "newlink a up", "src a 100",
+		fmt.Sprintf("adv %d", 200*MS), "src a 100", fmt.Sprintf("adv %d", 100*MS), fmt.Sprintf("adv %d", 1000*MS), "adv 30000000000"})
+	// two connections under one timeout toxic, traffic on the first after the second started
+	out = append(out, []string{"add up t1 timeout 1000 0 0 1", "newlink a up", fmt.Sprintf("adv %d", 500*MS), "newlink b up", "src a 5",
+		fmt.Sprintf("adv %d", 600*MS), fmt.Sprintf("adv %d", 1000*MS), fmt.Sprintf("adv %d", 3000*MS)})
+	out = append(out, []string{"add up t1 timeout 1000 0 0 1", "newlink a up", fmt.Sprintf("adv %d", 500*MS), "newlink b up", "src a 5",
+		fmt.Sprintf("adv %d", 100*MS), "srceof b", fmt.Sprintf("adv %d", 600*MS), fmt.Sprintf("adv %d", 3000*MS)})
+	// a slicer updated to a smaller bound after it has sliced data
+	out = append(out, []string{"add up t1 slicer 1000 100 0 1", "newlink a up", "src a 2500", "src a 2500", fmt.Sprintf("adv %d", 10*MS),
+		"upd t1 slicer 10 2 0 1", fmt.Sprintf("adv %d", MS), "src a 1000", fmt.Sprintf("adv %d", 100*MS), "adv 30000000000"})
+	// C14: independence of the per-connection decisions, and their frequency for small toxicities
 	out = append(out, []string{"indep 40"})
 	return out
 }
@@ -276,7 +303,12 @@ func Episode(r *rng.R, mode string) []string {
 func Sweep(e *Engine, tier string, seed uint64, mode string, res *report.Result) {
 	res.Rule = "E3: structured random episodes on a real ToxicCollection: 1-3 links (both directions), chains built before and after links start, source chunks of 1-1000 bytes, add/update/remove/reset of toxics (re-used names, middle removals) at quiescent points and while chunks are held by latency/bandwidth/slicer stages or blocked on a non-accepting sink, sink back-pressure, source EOF, virtual-time advances around every timer. After every operation the API call state, the chain listing and, per link, the source reads, the sink writes (bytes, boundaries, virtual times) and the close are compared with the Lean link model. distinct_nontrivial counts distinct (operation, program-counter vector) paths."
 	report1 := func(ops []string, f *report.Failure) {
-		g := run.Minimize(e, ops, f)
+		g := f
+		if len(ops) == 0 || ops[0] != "allowblock" {
+			// (a directed episode is reported as generated: shrinking it can take it outside the
+			// proviso it was built to respect)
+			g = run.Minimize(e, ops, f)
+		}
 		res.Failures = append(res.Failures, *g)
 		if g.Kind == "disagreement" && !e.OracleOnly {
 			e.OracleOnly = true
